@@ -172,6 +172,14 @@ impl RecGen {
                 seq,
             });
         }
+        // now and then one record far longer than the rest, so that listings,
+        // rows and lines cross the 4 KiB / 8 KiB buffer sizes used along the way
+        if self.max_len >= 150 && !out.is_empty() && rng.chance(1, 16) {
+            let i = rng.usize(0, out.len() - 1);
+            let len = rng.usize(1500, 9000);
+            let alpha = ALPHAS[rng.weighted(&self.alpha_w)];
+            out[i].seq = gen_seq(rng, len, alpha);
+        }
         out
     }
 }
